@@ -31,6 +31,11 @@ func MarshalCollection(c Collection, prepath string, fields map[string][]string,
 		raw := json.RawMessage(
 			MarshalResource(r, prepath, fields[r.GetType().Name], relData),
 		)
+		if len(raw) == 0 {
+			// The resource cannot be marshaled.
+			return nil
+		}
+
 		raws = append(raws, &raw)
 	}
 
